@@ -78,13 +78,15 @@ Proof.
     pose proof (N_of_bits_bound a) as Ba. pose proof (N_of_bits_bound b) as Bb. rewrite <- Hl in Bb.
     set (P := (2 ^ N.of_nat (length a))%N) in *.
     destruct x, y; cbn [N.b2n].
-    + rewrite N.mul_1_l, N.add_compare_mono_l. apply IH, Hl.
+    + rewrite (IH b Hl).
+      destruct (N.compare_spec (N_of_bits a) (N_of_bits b)); symmetry;
+        [apply N.compare_eq_iff|apply N.compare_lt_iff|apply N.compare_gt_iff]; lia.
     + symmetry. apply N.compare_gt_iff. lia.
     + symmetry. apply N.compare_lt_iff. lia.
     + rewrite N.mul_0_l, !N.add_0_l. apply IH, Hl.
 Qed.
 
-Lemma key16_lt i j : (i < j)%nat -> (j < 65536)%nat ->
+Lemma key16_lt i j : (i < j)%nat -> (N.of_nat j < 65536)%N ->
   Dict.bits_lt (bits_of 16 (N.of_nat i)) (bits_of 16 (N.of_nat j)).
 Proof.
   intros Hij Hj. unfold Dict.bits_lt. rewrite bits_cmp_N by (rewrite !bits_of_length; reflexivity).
@@ -94,9 +96,9 @@ Qed.
 
 (** *** entries built from a message list *)
 Lemma hl_entries_spec ms : forall i kvs,
-  modes_ok ms -> hl_entries i ms = Some kvs -> (i + length ms <= 65536)%nat ->
+  modes_ok ms -> hl_entries i ms = Some kvs -> (N.of_nat (i + length ms) <= 65536)%N ->
   Dict.sorted kvs /\ Dict.keys_len 16 kvs /\ length kvs = length ms /\
-  Forall (fun kv => exists j, (i <= j < 65536)%nat /\ fst kv = bits_of 16 (N.of_nat j)) kvs /\
+  Forall (fun kv => exists j, (i <= j)%nat /\ (N.of_nat j < 65536)%N /\ fst kv = bits_of 16 (N.of_nat j)) kvs /\
   hl_values kvs = Ok ms.
 Proof.
   induction ms as [|m t IH]; intros i kvs Hm H Hb.
@@ -108,24 +110,24 @@ Proof.
     destruct (IH (S i) r Ht Er ltac:(lia)) as (Hs & Hk & Hlen & Hf & Hv).
     repeat split.
     + constructor; [exact Hs|].
-      eapply Forall_impl; [|exact Hf]. intros kv (j & Hj & Ej). unfold Dict.key_lt. cbn [fst].
+      eapply Forall_impl; [|exact Hf]. intros kv (j & Hj & Hj' & Ej). unfold Dict.key_lt. cbn [fst].
       rewrite Ej. apply key16_lt; lia.
     + constructor; [cbn [fst]; apply bits_of_length|exact Hk].
     + cbn [length]. rewrite Hlen. reflexivity.
     + constructor.
-      * exists i. cbn [fst]. split; [lia|reflexivity].
-      * eapply Forall_impl; [|exact Hf]. intros kv (j & Hj & Ej). exists j. split; [lia|exact Ej].
+      * exists i. cbn [fst]. split; [lia|]. split; [lia|reflexivity].
+      * eapply Forall_impl; [|exact Hf]. intros kv (j & Hj & Hj' & Ej). exists j. split; [lia|]. split; [lia|exact Ej].
     + cbn [hl_values]. rewrite (take_all 8) by apply u8_len. cbn [bind fst snd].
       rewrite Hv. cbn [bind]. rewrite N_u8 by exact Hh. rewrite (of_dict_to_dict _ _ Ed).
       destruct m; reflexivity.
 Qed.
 
 Lemma hl_query_split valid rnd :
-  N_of_bits (u64 (hl_query valid rnd)) / 4294967296 = unix32 valid /\
-  N_of_bits (u64 (hl_query valid rnd)) mod 4294967296 = rnd mod 4294967296.
+  (N_of_bits (u64 (hl_query valid rnd)) / 4294967296 = unix32 valid /\
+   N_of_bits (u64 (hl_query valid rnd)) mod 4294967296 = rnd mod 4294967296)%N.
 Proof.
   pose proof (unix32_bound valid) as Hu.
-  assert (Hr : rnd mod 4294967296 < 4294967296) by (apply N.mod_lt; lia).
+  assert (Hr : (rnd mod 4294967296 < 4294967296)%N) by (apply N.mod_lt; lia).
   rewrite N_u64 by (unfold hl_query; lia). unfold hl_query. split.
   - rewrite N.div_add_l by lia. rewrite N.div_small by exact Hr. lia.
   - rewrite N.add_comm, N.mod_add by lia. apply N.mod_small, Hr.
@@ -186,7 +188,7 @@ Theorem extract_roundtrip w sk wc addr seqno valid ms init rnd h e :
     (length ms <= max_messages (w_ver w))%nat.
 Proof.
   intros Hm Ha Hi Hs Hq H.
-  destruct (raw_send_parse SK chash sign sig_len _ _ _ _ _ _ _ _ _ _ _ Ha Hi H) as (body & Hb & Hmax & _ & _ & Hp).
+  destruct (raw_send_parse SK chash sign _ _ _ _ _ _ _ _ _ _ _ Ha Hi H) as (body & Hb & Hmax & _ & _ & Hp).
   destruct (create_body_shape SK chash sign _ _ _ _ _ _ _ _ Hb) as (u & hu & Hu & Eu & Hh & Eb & _ & _).
   assert (D : forall d, (match w_ver w with
                          | V5Beta => decode_v5beta body | V5R1 => decode_v5r1 body
